@@ -195,13 +195,11 @@ func evalPath(node *jparse.PathNode, data reflect.Value, env *environment) (refl
 		return undefined, nil
 	}
 
-	var isVar bool
-	switch step0 := node.Steps[0].(type) {
-	case (*jparse.VariableNode):
-		isVar = true
-	case (*jparse.PredicateNode):
-		_, isVar = step0.Expr.(*jparse.VariableNode)
-	}
+	// A path that starts with a variable (or with an array
+	// constructor), possibly filtered by predicates or sorted,
+	// is evaluated once against the context item. It is not
+	// applied to each member of an array context.
+	isVar := isAbsoluteStep(node.Steps[0], true)
 
 	output := data
 	if isVar || !jtypes.IsArray(data) {
@@ -241,6 +239,23 @@ func evalPath(node *jparse.PathNode, data reflect.Value, env *environment) (refl
 	}
 
 	return output, nil
+}
+
+func isAbsoluteStep(step jparse.Node, outermost bool) bool {
+	switch step := step.(type) {
+	case *jparse.VariableNode:
+		return true
+	case *jparse.ArrayNode:
+		// An array constructor that is itself the first
+		// step is handled by evalPath.
+		return !outermost
+	case *jparse.PredicateNode:
+		return isAbsoluteStep(step.Expr, false)
+	case *jparse.SortNode:
+		return isAbsoluteStep(step.Expr, false)
+	default:
+		return false
+	}
 }
 
 func evalPathStep(step jparse.Node, data reflect.Value, env *environment, lastStep bool) (reflect.Value, error) {
